@@ -27,6 +27,7 @@ StateT = T.Rec("State", {
 
 denote = z3.Function("denote", Key.sort(), Val.sort())
 isdata = z3.Function("isdata", Key.sort(), z3.BoolSort())
+rank = z3.Function("rank", Key.sort(), z3.IntSort())
 
 
 def WF(S="state", MID="EMPTY", R="results"):
@@ -158,6 +159,7 @@ FREE_FT = {"state": StateT, "num_workers": T.Int, "pretask_cbs": T.Seq(Fn), "dsk
            "get_id": Fn, "pack_exception": Fn, "queue": T.U("Queue"), "IF": SetK, "SUB": SetK, "results": SetK}
 
 GRAPH = [
+    ("acyclic", 'forall(lambda k, d: implies(k in state["dependencies"].keys() and d in state["dependencies"][k], rank(d) < rank(k) and rank(d) >= 0), Key, Key)'),
     ("dsk-covers-tasks", 'forall(lambda k: implies(k in state["dependencies"].keys() and not isdata(k), k in dsk.keys()), Key)'),
 ]
 GHOST_INV = [
@@ -174,6 +176,7 @@ fire_tasks = Contract(
     requires=[("workers", "num_workers >= 1"), ("chunksize", "chunksize >= 1 or chunksize == -1")] + WF("state", "EMPTY") + GRAPH + GHOST_INV,
     ensures=WF("state", "EMPTY") + GHOST_INV + FRAME(["dependencies", "dependents", "waiting", "waiting_data", "cache", "finished", "released"]) + [
         ("running-grows", 'old(state["running"]) <= state["running"]'),
+        ("ready-shrinks", 'len(state["ready"]) <= len(old(state["ready"]))'),
         ("progress", 'implies(len(old(state["ready"])) >= 1 and old(state["running"]) == EMPTY, state["running"] != EMPTY)'),
     ],
     loops={
@@ -211,13 +214,127 @@ fire_tasks = Contract(
     ],
 )
 
-CONTRACTS = [release_data, finish_task, submit, fire_tasks]
+import os as _os
+
+_LEM = _os.path.join(_os.path.dirname(_os.path.dirname(_os.path.abspath(__file__))), "lemmas", "sched_lemmas.py")
+
+no_deadlock = Contract(
+    _LEM, "lemma_no_deadlock",
+    params={"state": StateT, "k0": Key},
+    free={"results": SetK},
+    locals={"k": Key, "d": Key},
+    requires=WF("state", "EMPTY") + [GRAPH[0],
+        ("nothing-ready", 'len(state["ready"]) == 0'), ("nothing-running", 'state["running"] == EMPTY'),
+        ("k0-waits", 'k0 in state["waiting"].keys()')],
+    ensures=[("contradiction", "False")],
+    loops={0: dict(invariant=[("k-waits", 'k in state["waiting"].keys()')], decreases="rank(k)")},
+    exit_unreachable=True,
+    note="no-deadlock by infinite descent on the acyclicity rank",
+)
+
+OptFn = T.Opt(Fn)
+CbT = T.Tup(OptFn, OptFn, OptFn, OptFn, OptFn)
+KeyList = T.U("KeyList")
+Request = T.Union("Request", {"key": Key, "lst": KeyList}, classes={"list": ["lst"]})
+ResT = T.Tup(Key, Blob, T.Bool)
+leaves = z3.Function("leaves", Request.sort(), SetK.sort())
+payload = z3.Function("payload", Blob.sort(), Val.sort())
+packv = z3.Function("packv", Request.sort(), Cache.sort(), Val.sort())
+result_raises = z3.Function("result_raises", SetK.sort(), z3.BoolSort())
+
+start_state = Contract(
+    MODULE, "start_state_from_dask", assumed=True,
+    params={"dsk": T.Map(Key, Node), "cache": T.Opt(Cache), "sortkey": Fn, "keys": SetK},
+    returns=StateT,
+    requires=[("cache-empty", "cache is None")],
+    ensures=[(l, c.replace("state", "result").replace("results", "keys")) for l, c in WF("state", "EMPTY") + GRAPH] + [
+        ("fresh", 'result["running"] == EMPTY and result["finished"] == EMPTY and result["released"] == EMPTY'),
+    ],
+    raises=[("ValueError", "missing_dependency(dsk, keys)", "missing-dependency")],
+    note="ASSUMED in this module; verified separately (start_state_from_dask contract below when built)",
+)
+
+queue_result = Contract(
+    MODULE, "queue_get_result", assumed=True,
+    params={},
+    free={"IF": SetK},
+    frame=["IF"],
+    returns=T.Seq(ResT),
+    requires=[("something-in-flight (otherwise the scheduler blocks forever)", "IF != EMPTY")],
+    ensures=[
+        ("nonempty", "len(result) >= 1"),
+        ("was-in-flight", "forall(lambda j: implies(0 <= j and j < len(result), result[j][0] in old(IF) and result[j][0] not in IF))"),
+        ("distinct", "forall(lambda i, j: implies(0 <= i and i < j and j < len(result), result[i][0] != result[j][0]))"),
+        ("IF-shrinks", "forall(lambda k: (k in IF) == (k in old(IF) and not exists(lambda j: 0 <= j and j < len(result) and result[j][0] == k)), Key)"),
+        ("value", "forall(lambda j: implies(0 <= j and j < len(result) and not result[j][2], payload(result[j][1]) == denote(result[j][0])))"),
+    ],
+    raises=[("TaskError", "result_raises(IF)", "worker-raised")],
+    note="ASSUMED contract of queue_get(queue).result(): returns the results of SOME in-flight batch (any interleaving, any worker count); a task executed on the values of its dependencies yields denote(key)",
+)
+
+nested_get = Contract(
+    MODULE, "nested_get", assumed=True,
+    params={"ind": Request, "coll": Cache},
+    returns=Val,
+    requires=[("leaves-present", "leaves(ind) <= coll.keys()")],
+    ensures=[("packed", "result == packv(ind, coll)")],
+    note="bounded natively (recursive over dynamically typed nesting)",
+)
+
+get_async = Contract(
+    MODULE, "get_async",
+    params={"submit": Fn, "num_workers": T.Int, "dsk": T.Map(Key, Node), "result": Request, "cache": T.Opt(Cache), "get_id": Fn,
+            "rerun_exceptions_locally": T.Opt(T.Bool), "pack_exception": Fn, "raise_exception": Fn, "callbacks": T.U("CallbacksArg"),
+            "dumps": Fn, "loads": Fn, "chunksize": T.Opt(T.Int)},
+    locals={"result_flat": SetK, "results": SetK, "started_cbs": T.Seq(CbT), "state": StateT, "IF": SetK, "SUB": SetK},
+    returns=Val,
+    requires=[
+        ("workers", "num_workers >= 1"),
+        ("chunksize", "chunksize is None or chunksize >= 1 or chunksize == -1 or chunksize == 0"),
+        ("cache-empty", "cache is None"),
+        ("no-local-rerun", "rerun_exceptions_locally is not None and not rerun_exceptions_locally"),
+    ],
+    ensures=[
+        ("C01-value", 'result == packv(old(result), state["cache"])'),
+        ("C01-values-are-denotations", 'forall(lambda k: implies(k in leaves(old(result)), k in state["cache"].keys() and state["cache"][k] == denote(k)), Key)'),
+        ("C02-all-needed-ran-once", 'SUB == state["finished"] and forall(lambda k: (k in SUB) == (k in state["dependencies"].keys() and not isdata(k)), Key)'),
+        ("C03-nothing-leaked", 'forall(lambda k: implies(k in state["cache"].keys(), k in leaves(old(result))), Key)'),
+    ],
+    raises=[("ValueError", "True", "bad-graph"), ("TaskError", "True", "task-failed")],
+    loops={
+        0: dict(invariant=[]),  # start callbacks
+        1: dict(invariant=[]),  # start_state callbacks
+        2: dict(  # main loop
+            invariant=WF("state", "EMPTY") + GRAPH + GHOST_INV + [("not-succeeded", "not succeeded")],
+        ),
+        3: dict(  # results of one batch
+            index="j", seq="batch",
+            invariant=WF("state", "EMPTY") + GRAPH + [
+                ("not-succeeded", "not succeeded"),
+                ("running", 'forall(lambda k: (k in state["running"]) == (k in IF or exists(lambda i: j <= i and i < len(batch) and batch[i][0] == k)), Key)'),
+                ("submitted-once", 'SUB == state["running"] | state["finished"]'),
+            ],
+        ),
+        4: dict(invariant=[]),  # posttask callbacks
+        5: dict(invariant=[]),  # finish callbacks
+    },
+    ghost=[
+        ("before", "state = {}", "IF = EMPTY\nSUB = EMPTY\nstate = STATE0"),
+        ("before", "for key, res_info, failed in", 'if len(state["ready"]) == 0 and state["running"] == EMPTY:\n    lemma_no_deadlock(state, pick(state["waiting"].keys()))'),
+    ],
+    drop=["state = {}"],
+    note="dropped: the rerun_exceptions_locally branch (precondition), the Windows queue_get polling variant",
+)
+
+CONTRACTS = [release_data, finish_task, submit, fire_tasks, no_deadlock, start_state, queue_result, nested_get, get_async]
 
 
 def setup(eng):
     eng.consts["EMPTY"] = SV(SetK.empty(), SetK)
+    eng.consts["STATE0"] = SV(z3.Const("STATE0", StateT.sort()), StateT)  # stands for the `{}` placeholder
     eng.spec_types["Key"] = Key
     eng.funcs["isdata"] = FuncVal("isdata", "uf", (isdata, T.Bool, [Key]))
+    eng.funcs["rank"] = FuncVal("rank", "uf", (rank, T.Int, [Key]))
     eng.funcs["denote"] = FuncVal("denote", "uf", (denote, Val, [Key]))
     eng.funcs["release_data"] = FuncVal("release_data", "contract", release_data)
     eng.funcs["finish_task"] = FuncVal("finish_task", "contract", finish_task)
@@ -228,7 +345,89 @@ def setup(eng):
     eng.funcs["submit"] = FuncVal("submit", "contract", submit)
     eng.funcs["batch_execute_tasks"] = FuncVal("batch_execute_tasks", "opaque")
     eng.callable_sorts["Fn"] = call_fn
+    eng.callable_sorts["Opt<Fn>"] = call_fn
+    eng.funcs["config.get"] = FuncVal("config.get", "model", model_config_get)
+    eng.funcs["flatten"] = FuncVal("flatten", "model", model_flatten)
+    eng.funcs["Queue"] = FuncVal("Queue", "model", model_opaque(T.U("Queue"), "queue"))
+    eng.funcs["order"] = FuncVal("order", "model", model_opaque(T.U("KeyOrder"), "keyorder"))
+    eng.funcs["convert_legacy_graph"] = FuncVal("convert_legacy_graph", "model", model_identity_graph)
+    eng.funcs["unpack_callbacks"] = FuncVal("unpack_callbacks", "model", model_opaque(T.Tup(*[T.Seq(Fn)] * 5), "cbs"))
+    eng.funcs["queue_get"] = FuncVal("queue_get", "model", model_queue_get)
+    eng.funcs["start_state_from_dask"] = FuncVal("start_state_from_dask", "contract", start_state)
+    eng.funcs["nested_get"] = FuncVal("nested_get", "contract", nested_get)
+    eng.funcs["no_deadlock"] = FuncVal("lemma_no_deadlock", "contract", no_deadlock)
+    eng.funcs["lemma_no_deadlock"] = eng.funcs["no_deadlock"]
+    eng.funcs["leaves"] = FuncVal("leaves", "uf", (leaves, SetK, [Request]))
+    eng.funcs["payload"] = FuncVal("payload", "uf", (payload, Val, [Blob]))
+    eng.funcs["packv"] = FuncVal("packv", "uf", (packv, Val, [Request, Cache]))
+    eng.funcs["result_raises"] = FuncVal("result_raises", "uf", (result_raises, T.Bool, [SetK]))
+    eng.funcs["missing_dependency"] = FuncVal("missing_dependency", "uf", (z3.Function("missing_dependency", T.Map(Key, Node).sort(), SetK.sort(), z3.BoolSort()), T.Bool, [T.Map(Key, Node), SetK]))
+    eng.attr_models[("attr", "KeyOrder", "get")] = lambda eng_, st, base, node: __import__("vf.core", fromlist=["fresh"]).fresh(Fn, "sortkey")
+    eng.attr_models[("method", "DoneFuture", "result")] = model_result
+    eng.context_managers = {"local_callbacks": (cm_enter, cm_exit)}
+    eng.isinstance_static[("Map<Key,Node>", "Mapping")] = True
+    r_ = z3.Const("r", Request.sort())
+    eng.axioms.append(z3.ForAll([r_], z3.Implies(Request.is_("key", r_), leaves(r_) == z3.Store(SetK.empty(), Request.proj("key", r_), True)), patterns=[leaves(r_)]))
     eng.attr_models[("method", "Future", "add_done_callback")] = lambda eng_, st, base, node, lv: SV(T.NoneT.value(), T.NoneT)
+
+
+def model_config_get(eng, st, node, want):
+    """ASSUMED: dask.config holds a positive int (or -1) for 'chunksize' and a bool for 'rerun_exceptions_locally'."""
+    from vf.core import fresh
+    key = node.args[0].value
+    if key == "chunksize":
+        c = fresh(T.Int, "cfg_chunksize")
+        st.assume(z3.Or(c.t >= 1, c.t == -1))
+        return c
+    if key == "rerun_exceptions_locally":
+        return SV(z3.BoolVal(False), T.Bool)
+    return fresh(T.U("Opaque"), "cfg")
+
+
+def model_flatten(eng, st, node, want):
+    from vf.core import fresh
+    r = eng.ev(node.args[0], st)
+    s_ = fresh(T.Seq(Key), "flat")
+    st.assume(eng.elems(s_).t == leaves(r.t))
+    st.assume(T.Seq(Key).len(s_.t) >= 0)
+    return s_
+
+
+def model_opaque(ty, hint):
+    def m(eng, st, node, want):
+        from vf.core import fresh
+        for a in node.args:
+            eng.ev(a, st)
+        return fresh(ty, hint)
+    return m
+
+
+def model_identity_graph(eng, st, node, want):
+    """ASSUMED: convert_legacy_graph is the identity on a graph that is already in task-spec form (C08 covers conversion)."""
+    return eng.ev(node.args[0], st)
+
+
+def model_queue_get(eng, st, node, want):
+    from vf.core import fresh
+    return fresh(T.U("DoneFuture"), "done")
+
+
+def model_result(eng, st, base, node, lv):
+    import ast
+    call = ast.Call(func=ast.Name(id="queue_get_result", ctx=ast.Load()), args=[], keywords=[])
+    ast.copy_location(call, node)
+    return eng.call_contract(queue_result, call, st, None)
+
+
+def cm_enter(eng, st, ce):
+    from vf.core import fresh
+    cbs = fresh(T.Seq(CbT), "callbacks")
+    st.assume(T.Seq(CbT).len(cbs.t) >= 0)
+    return cbs
+
+
+def cm_exit(eng, st, kind):
+    pass
 
 
 def call_fn(eng, st, fv, node, want):
@@ -239,5 +438,16 @@ def call_fn(eng, st, fv, node, want):
     name = ast.unparse(node.func)
     for a in node.args:
         eng.ev(a, st)
+    if name == "raise_exception":
+        # reraise(exc, tb): always raises the task's exception object
+        from vf.core import Outcome
+        eng.pending_raises.append(Outcome("raise", st.copy(), None, "TaskError"))
+        st.assume(z3.BoolVal(False))
+        return fresh(T.U("Opaque"), "never")
+    if name == "loads":
+        a = eng.ev(node.args[0], st)
+        tt = T.Tup(Val, T.U("Opaque"))
+        o = fresh(T.U("Opaque"), "aux")
+        return SV(tt.mk(payload(a.t), o.t), tt)
     ret = {"dumps": Blob}.get(name, T.U("Opaque"))
     return fresh(ret, name + "_ret")
